@@ -18,3 +18,5 @@ def run(ctx, rep):
         "lexical `this` of arrow functions (no structural necessary condition independent of the implementation strategy)",
     ]
     optargs.rule_missing_is_undefined(ctx, rep, "C08-R12", lambda f: any(p in f.qual for p in ("_create_object_constructor", "_make_object_method", "_make_function_method", "_create_function_constructor")), "Object, Object.prototype and Function.prototype", floor=3)
+    objmodel.rule_data_accessor_exclusive(ctx, rep, "C08-R13")
+    objmodel.rule_nearest_definition_decides(ctx, rep, "C08-R14")
